@@ -423,6 +423,13 @@ func (e *enc) callWrites(fr *frame, c *ssa.CallCommon, keys map[string]bool, all
 					}
 				case *SField:
 					if id, ok := n.X.(*SIdent); ok {
+						for i, p := range cal.Params {
+							if p.Name() == id.Name && i < len(c.Args) {
+								if u, ok := c.Args[i].(*ssa.UnOp); ok {
+									e.addWriteBase(fr, u.X, keys, allHeap)
+								}
+							}
+						}
 						for _, imp := range cal.Pkg.Pkg.Imports() {
 							if imp.Name() == id.Name {
 								if sp := e.w.Prog.Package(imp); sp != nil {
@@ -442,6 +449,18 @@ func (e *enc) callWrites(fr *frame, c *ssa.CallCommon, keys map[string]bool, all
 	for _, a := range c.Args {
 		if _, ok := a.Type().Underlying().(*types.Pointer); ok && !isNodeType(a.Type()) {
 			e.addWriteBase(fr, a, keys, allHeap)
+		}
+		// a struct holding maps, passed by value, shares those maps with the place it was loaded from
+		if st, ok := a.Type().Underlying().(*types.Struct); ok && !isNodeType(a.Type()) {
+			hasMap := false
+			for i := 0; i < st.NumFields(); i++ {
+				if _, isMap := st.Field(i).Type().Underlying().(*types.Map); isMap {
+					hasMap = true
+				}
+			}
+			if u, ok := a.(*ssa.UnOp); ok && hasMap {
+				e.addWriteBase(fr, u.X, keys, allHeap)
+			}
 		}
 		// maps are references: a callee may update the caller's map
 		if _, ok := a.Type().Underlying().(*types.Map); ok {
@@ -555,9 +574,25 @@ func (e *enc) loopHeader(fr *frame, h *ssa.BasicBlock) {
 		fmt.Fprintf(os.Stderr, "loop %d of %s writes %v allHeap=%v\n", ord, fnFull(fr.fn), sortedKeys(keys), allHeap)
 	}
 	for _, k := range sortedKeys(e.mem) {
+		if strings.HasPrefix(k, "AL:") && loopAllocates(body) {
+			old := e.mem[k]
+			e.mem[k] = e.fresh("al_h", "(Array Int Bool)")
+			e.assume(fmt.Sprintf("(forall ((x Int)) (! (=> (select %s x) (select %s x)) :pattern ((select %s x))))", old, e.mem[k], old))
+			continue
+		}
 		if keys[k] || (allHeap && strings.HasPrefix(k, "H:")) {
 			old := e.mem[k]
 			e.havocKey(k)
+			// automatic heap frame: if every write of the loop to this heap goes through an object allocated by this
+			// function activation, the objects that were allocated when the function was entered are unchanged
+			if strings.HasPrefix(k, "H:") && !allHeap && loopWritesOnlyFresh(fr, body, k, e) {
+				ak := "AL:" + strings.TrimPrefix(k, "H:")
+				if al0, ok := fr.entryMem[ak]; ok {
+					e.assume(fmt.Sprintf("(forall ((r Int)) (! (=> (select %s r) (= (select %s r) (select %s r))) :pattern ((select %s r))))", al0, e.mem[k], old, e.mem[k]))
+				} else if al0, ok := e.init[ak]; ok {
+					e.assume(fmt.Sprintf("(forall ((r Int)) (! (=> (select %s r) (= (select %s r) (select %s r))) :pattern ((select %s r))))", al0, e.mem[k], old, e.mem[k]))
+				}
+			}
 			// a map location that is only updated (never reassigned) in the loop keeps its nil-ness
 			if ms := e.memSort[k]; strings.HasPrefix(ms, "Map_") && !stored[k] {
 				e.assume(fmt.Sprintf("(= (nil_%s %s) (nil_%s %s))", ms, e.mem[k], ms, old))
@@ -754,7 +789,7 @@ func (e *enc) aroundCall(fr *frame, c *ssa.Call, table map[string][]Clause, cls 
 		names := fr.curNames
 		env.locals = func(name string) (tval, bool) {
 			if v, ok := names[name]; ok {
-				if a, isAlloc := v.(*ssa.Alloc); isAlloc {
+				if a, isAlloc := v.(*ssa.Alloc); isAlloc && a.Comment == name {
 					if l, ok := fr.loc[a]; ok && l.ty != nil {
 						return e.mkT(e.read(l), l.ty), true
 					}
@@ -805,6 +840,243 @@ func inRangeBody(fr *frame, b *ssa.BasicBlock, st *rangeState) bool {
 	return false
 }
 
+// ---- maps are references: a struct copy shares its map fields with the original
+
+func (e *enc) aliasMapFields(dst, src *Loc, ty types.Type, depth int) {
+	if depth > 2 {
+		return
+	}
+	switch u := ty.Underlying().(type) {
+	case *types.Map:
+		if e.mapAlias == nil {
+			e.mapAlias = map[string][]*Loc{}
+		}
+		e.mapAlias[locKey(dst)] = append(e.mapAlias[locKey(dst)], src)
+		e.mapAlias[locKey(src)] = append(e.mapAlias[locKey(src)], dst)
+	case *types.Struct:
+		s := e.so.of(ty)
+		fs := e.so.fields[s]
+		for i := 0; i < u.NumFields() && i < len(fs); i++ {
+			if fs[i].opaque {
+				continue
+			}
+			switch u.Field(i).Type().Underlying().(type) {
+			case *types.Map, *types.Struct:
+				st := step{kind: "field", field: s + "." + fs[i].name, sort: s, fi: i}
+				d := &Loc{base: dst.base, ref: dst.ref, path: append(append([]step{}, dst.path...), st), sort: fs[i].sort, ty: u.Field(i).Type()}
+				sr := &Loc{base: src.base, ref: src.ref, path: append(append([]step{}, src.path...), st), sort: fs[i].sort, ty: u.Field(i).Type()}
+				e.aliasMapFields(d, sr, u.Field(i).Type(), depth+1)
+			}
+		}
+	}
+}
+
+func (e *enc) mapAliasesOf(l *Loc) []*Loc {
+	seen := map[string]bool{locKey(l): true}
+	var out []*Loc
+	work := []*Loc{l}
+	for len(work) > 0 {
+		c := work[0]
+		work = work[1:]
+		for _, o := range e.mapAlias[locKey(c)] {
+			if !seen[locKey(o)] {
+				seen[locKey(o)] = true
+				out = append(out, o)
+				work = append(work, o)
+			}
+		}
+	}
+	return out
+}
+
+// dropMapAliases: the location is assigned a new value: it no longer shares a map with anything
+func (e *enc) dropMapAliases(l *Loc) {
+	if e.mapAlias == nil {
+		return
+	}
+	k := locKey(l)
+	for key := range e.mapAlias {
+		if key == k || strings.HasPrefix(key, k+"|") {
+			delete(e.mapAlias, key)
+		}
+	}
+	for key, ls := range e.mapAlias {
+		var keep []*Loc
+		for _, o := range ls {
+			ok := locKey(o)
+			if ok == k || strings.HasPrefix(ok, k+"|") {
+				continue
+			}
+			keep = append(keep, o)
+		}
+		e.mapAlias[key] = keep
+	}
+}
+
+// loopWritesOnlyFresh: every store / map update of the loop body that lands in heap component k is rooted at an
+// allocation of this function (a fresh object), and no callee under a heap-writing contract or unknown callee runs in it
+func loopWritesOnlyFresh(fr *frame, body map[*ssa.BasicBlock]bool, k string, e *enc) bool {
+	rootIsOwnAlloc := func(v ssa.Value) bool {
+		for d := 0; d < 12; d++ {
+			switch x := v.(type) {
+			case *ssa.Alloc:
+				return allocEscapes(x)
+			case *ssa.FieldAddr:
+				v = x.X
+			case *ssa.IndexAddr:
+				v = x.X
+			case *ssa.UnOp:
+				v = x.X
+			default:
+				return false
+			}
+		}
+		return false
+	}
+	sortOf := func(v ssa.Value) string {
+		for d := 0; d < 12; d++ {
+			switch x := v.(type) {
+			case *ssa.FieldAddr:
+				v = x.X
+				continue
+			case *ssa.IndexAddr:
+				v = x.X
+				continue
+			case *ssa.UnOp:
+				v = x.X
+				continue
+			}
+			break
+		}
+		if pt, ok := v.Type().Underlying().(*types.Pointer); ok {
+			return "H:" + e.so.of(pt.Elem())
+		}
+		return ""
+	}
+	for b := range body {
+		for _, in := range b.Instrs {
+			switch x := in.(type) {
+			case *ssa.Store:
+				if _, isAlloc := rootAlloc(x.Addr); isAlloc {
+					if a, _ := rootAlloc(x.Addr); !allocEscapes(a) {
+						continue // a local cell, not the heap
+					}
+				}
+				if sortOf(x.Addr) == k && !rootIsOwnAlloc(x.Addr) {
+					return false
+				}
+			case *ssa.MapUpdate:
+				if sortOf(x.Map) == k && !rootIsOwnAlloc(x.Map) {
+					return false
+				}
+			case *ssa.Call:
+				c := x.Common()
+				if b, ok := c.Value.(*ssa.Builtin); ok {
+					if b.Name() == "delete" && sortOf(c.Args[0]) == k && !rootIsOwnAlloc(c.Args[0]) {
+						return false
+					}
+					continue
+				}
+				cal := c.StaticCallee()
+				if cal == nil {
+					continue // calls through function values are assumed not to write tracked memory
+				}
+				if !inRepo(cal) {
+					continue
+				}
+				if ct, ok := e.ss.Contracts[cal.Pkg.Pkg.Path()+"."+funcKey(cal)]; ok && !ct.ModAll {
+					for _, m := range ct.Modifies {
+						if u, ok := m.E.(*SUnary); ok && u.Op == "*" {
+							return false
+						}
+						if _, ok := m.E.(*SField); ok {
+							return false
+						}
+					}
+					continue
+				}
+				if e.w.frameOf(cal).heap {
+					return false
+				}
+			}
+		}
+	}
+	return true
+}
+
+// ---- allocation ghost: per heap sort, the set of allocated references (a memory component "AL:<sort>")
+
+func (e *enc) allocSetKey(elem types.Type) string {
+	key := "AL:" + e.so.of(elem)
+	if _, ok := e.mem[key]; !ok {
+		e.memSort[key] = "(Array Int Bool)"
+		e.mem[key] = e.fresh("al0_"+e.so.of(elem), "(Array Int Bool)")
+		e.init[key] = e.mem[key]
+		for f := e.fr; f != nil; f = f.parent {
+			if f.entryMem != nil {
+				if _, ok := f.entryMem[key]; !ok {
+					f.entryMem[key] = e.mem[key]
+				}
+			}
+		}
+	}
+	return key
+}
+
+// assumeAllocated: a pointer value obtained from memory / a parameter / a call is nil or allocated
+func (e *enc) assumeAllocated(v Term, ty types.Type) {
+	pt, ok := ty.Underlying().(*types.Pointer)
+	if !ok || isNodeType(ty) || isNodeType(pt.Elem()) {
+		return
+	}
+	if _, isArr := pt.Elem().Underlying().(*types.Array); isArr {
+		return
+	}
+	ak := e.allocSetKey(pt.Elem())
+	e.assumeAt(fmt.Sprintf("(or (= %s 0) (select %s %s))", v, e.mem[ak], v))
+}
+
+func loopAllocates(body map[*ssa.BasicBlock]bool) bool {
+	for b := range body {
+		for _, in := range b.Instrs {
+			if a, ok := in.(*ssa.Alloc); ok && allocEscapes(a) {
+				return true
+			}
+			if _, ok := in.(*ssa.Call); ok {
+				return true // a callee may allocate
+			}
+		}
+	}
+	return false
+}
+
+// allocEscapes: the address of the cell is stored in memory, put into a map / slice / interface, merged by a phi or returned
+func allocEscapes(a *ssa.Alloc) bool {
+	refs := a.Referrers()
+	if refs == nil {
+		return false
+	}
+	for _, r := range *refs {
+		switch x := r.(type) {
+		case *ssa.Store:
+			if x.Val == ssa.Value(a) {
+				return true
+			}
+		case *ssa.MapUpdate:
+			if x.Value == ssa.Value(a) || x.Key == ssa.Value(a) {
+				return true
+			}
+		case *ssa.MakeInterface, *ssa.Return, *ssa.Phi, *ssa.ChangeType:
+			return true
+		case *ssa.Call:
+			if b, ok := x.Call.Value.(*ssa.Builtin); ok && b.Name() == "append" {
+				return true
+			}
+		}
+	}
+	return false
+}
+
 func isPkgLevel(obj *types.Var) bool {
 	return obj.Pkg() != nil && obj.Parent() == obj.Pkg().Scope()
 }
@@ -837,6 +1109,25 @@ func (e *enc) instr(b *ssa.BasicBlock, in ssa.Instruction) {
 	case *ssa.DebugRef:
 	case *ssa.Alloc:
 		elem := x.Type().(*types.Pointer).Elem()
+		if allocEscapes(x) && !isNodeType(elem) {
+			// the address is stored / returned / boxed: a fresh object on the heap of its type
+			if _, isArr := elem.Underlying().(*types.Array); !isArr {
+				hk := e.heapKey(elem)
+				ak := e.allocSetKey(elem)
+				ref := e.fresh("new_"+x.Name(), "Int")
+				// a fresh object: not in the set of allocated references, which it then joins
+				e.assume(fmt.Sprintf("(and (> %s 0) (not (select %s %s)))", ref, e.mem[ak], ref))
+				nal := e.fresh("al_"+e.so.of(elem), "(Array Int Bool)")
+				e.assume(fmt.Sprintf("(= %s (store %s %s true))", nal, e.mem[ak], ref))
+				e.mem[ak] = nal
+				l := &Loc{base: hk, ref: ref, sort: e.so.of(elem), ty: elem}
+				e.write(l, e.zero(elem))
+				fr.loc[x] = l
+				fr.val[x] = ref
+				e.assumps["every pointer that is read from memory, passed in or returned by a call is nil or refers to an allocated object; a new object is distinct from all allocated ones"] = true
+				return
+			}
+		}
 		key := e.allocKey(fr, x)
 		e.memSort[key] = e.so.of(elem)
 		e.memTy[key] = elem
@@ -929,6 +1220,16 @@ func (e *enc) instr(b *ssa.BasicBlock, in ssa.Instruction) {
 		}
 		v := e.value(x.Val)
 		e.write(l, v)
+		if p, ok := x.Val.(*ssa.Parameter); ok {
+			if a, ok := x.Addr.(*ssa.Alloc); ok && a.Comment == p.Name() && len(l.path) == 0 {
+				e.init[l.base] = v // the cell is the parameter variable: before the copy its value is the argument
+			}
+		}
+		e.dropMapAliases(l)
+		// copying a struct that holds maps: the maps are shared with the place the struct was loaded from
+		if src, ok := fr.prov[x.Val]; ok && l.ty != nil {
+			e.aliasMapFields(l, src, l.ty, 0)
+		}
 		// storing a pointer-to-cell: remember what the cell points to
 		if vl, ok := fr.loc[x.Val]; ok {
 			if e.ptrIn == nil {
@@ -954,6 +1255,7 @@ func (e *enc) instr(b *ssa.BasicBlock, in ssa.Instruction) {
 			}
 			fr.val[x] = e.define("ld_"+x.Name(), e.so.of(x.Type()), e.read(l))
 			fr.prov[x] = l
+			e.assumeAllocated(fr.val[x], x.Type())
 			if e.ptrIn != nil {
 				if pl, ok := e.ptrIn[locKey(l)]; ok {
 					fr.loc[x] = pl
@@ -1048,6 +1350,9 @@ func (e *enc) instr(b *ssa.BasicBlock, in ssa.Instruction) {
 		nv := fmt.Sprintf("(mk_%s (store (dom_%s %s) %s true) (store (val_%s %s) %s %s) false)", ms, ms, m, e.value(x.Key), ms, m, e.value(x.Key), e.value(x.Value))
 		if prov, ok := fr.prov[x.Map]; ok {
 			e.write(prov, nv)
+			for _, other := range e.mapAliasesOf(prov) {
+				e.write(other, nv)
+			}
 			// keep the SSA value usable for later updates through the same register (maps are references)
 			fr.val[x.Map] = e.read(prov)
 		} else {
@@ -1298,6 +1603,13 @@ func (e *enc) lookup(x *ssa.Lookup) {
 		k := e.value(x.Index)
 		e.useMap(m, ms, mt)
 		v := fmt.Sprintf("(select (val_%s %s) %s)", ms, m, k)
+		defer func() {
+			if t, ok := fr.val[x]; ok {
+				e.assumeAllocated(t, mt.Elem())
+			} else if tup, ok := fr.tuples[x]; ok {
+				e.assumeAllocated(tup[0], mt.Elem())
+			}
+		}()
 		if x.CommaOk {
 			fr.tuples[x] = []Term{e.define("lk_"+x.Name(), e.so.of(mt.Elem()), v), e.define("lkok_"+x.Name(), "Bool", fmt.Sprintf("(select (dom_%s %s) %s)", ms, m, k))}
 		} else {
